@@ -22,6 +22,7 @@ pub async fn run(op: &str, a: &[String]) -> Option<Vec<String>> {
         "preamble.out" => preamble_out(a).await,
         "signal" => signal(a).await,
         "finish.retry" => finish_retry(a).await,
+        "read.exact" => read_exact_op(a).await,
         _ => return None,
     })
 }
@@ -975,6 +976,97 @@ async fn finish_retry(a: &[String]) -> Vec<String> {
     ]
 }
 
+// ---------------------------------------------------------------------------------------------
+// read.exact  rt role how code
+//
+// The receiver is parked in `read_exact` of a 10-byte buffer. `how`:
+//   reset_before  the sender resets with `code` before writing anything
+//   reset_mid     the sender writes 4 bytes, 300 ms later resets with `code`
+//   finish_mid    the sender writes 4 bytes, 300 ms later finishes
+//   complete      the sender writes 10 bytes
+// obs: `read_exact=<ok:hex|finished_early:n|reset:c|…>` `then_read=<what a following read() gives>`.
+
+async fn read_exact_op(a: &[String]) -> Vec<String> {
+    let role = arg(a, 1).to_string();
+    let how = arg(a, 2).to_string();
+    let code = arg(a, 3).parse::<u64>().unwrap_or(u64::MAX);
+    let fail = |e: String| vec!["read_exact=-".to_string(), "then_read=-".into(), format!("err={e}")];
+    let Ok(code) = VarInt::try_from_u64(code) else {
+        return fail("bad_code".into());
+    };
+    let rt = match TestRt::new(arg(a, 0)) {
+        Ok(rt) => rt,
+        Err(e) => return fail(e),
+    };
+    let pair = match real_pair(&rt).await {
+        Ok(p) => p,
+        Err(e) => return fail(e),
+    };
+    let (opener, accepter) = if role.starts_with('c') {
+        (pair.client.clone(), pair.server.clone())
+    } else {
+        (pair.server.clone(), pair.client.clone())
+    };
+    let bidi = role.ends_with('b');
+    let task = rt.spawn(async move {
+        let mut keep: Keep = vec![];
+        let mut send = if bidi {
+            let (s, r) = wt_open_bi(&opener).await?;
+            keep.push(Box::new(r));
+            s
+        } else {
+            wt_open_uni(&opener).await?
+        };
+        // the stream becomes visible to the receiver with its first bytes (the preamble)
+        let first: &[u8] = match how.as_str() {
+            "reset_before" => &[],
+            "complete" => &[1, 2, 3, 4, 5, 6, 7, 8, 9, 10],
+            _ => &[1, 2, 3, 4],
+        };
+        wt_write(&mut send, first, 0).await.map_err(|e| format!("write:{e}"))?;
+        let mut recv = if bidi {
+            let (s, r) = wt_accept_bi(&accepter).await.map_err(|e| format!("accept:{e}"))?;
+            keep.push(Box::new(s));
+            r
+        } else {
+            wt_accept_uni(&accepter).await.map_err(|e| format!("accept:{e}"))?
+        };
+        let reader = tokio::spawn(async move {
+            let mut buf = [0u8; 10];
+            let r = match bounded(recv.read_exact(&mut buf)).await {
+                None => "timeout".to_string(),
+                Some(Ok(())) => format!("ok:{}", hex(&buf)),
+                Some(Err(e)) => canon::read_exact_err(&e),
+            };
+            let mut b2 = [0u8; 8];
+            let then = match bounded_ms(1500, recv.read(&mut b2)).await {
+                None => "pending".to_string(),
+                Some(Ok(Some(n))) => format!("data:{n}"),
+                Some(Ok(None)) => "eos".into(),
+                Some(Err(e)) => canon::read_err(&e),
+            };
+            (r, then)
+        });
+        tokio::time::sleep(std::time::Duration::from_millis(300)).await;
+        match how.as_str() {
+            "reset_before" | "reset_mid" => {
+                let _ = send.reset(code);
+            }
+            "finish_mid" => {
+                let _ = bounded_ms(3000, send.finish()).await;
+            }
+            _ => {}
+        }
+        let out = joined(reader).await?;
+        drop(keep);
+        Ok::<_, String>(out)
+    });
+    match joined(task).await {
+        Err(e) | Ok(Err(e)) => fail(e),
+        Ok(Ok((r, then))) => vec![format!("read_exact={r}"), format!("then_read={then}")],
+    }
+}
+
 fn s<T: ToString>(x: T) -> String {
     x.to_string()
 }
@@ -1175,6 +1267,14 @@ fn gen_c06(thorough: bool, rng: &mut Rng, emit: &mut dyn FnMut(&str, Vec<String>
     for role in ROLES {
         for rt in RTS {
             emit("finish.retry", vec![s(rt), s(role)]);
+        }
+        for how in ["reset_before", "reset_mid", "finish_mid", "complete"] {
+            for code in [0u64, 77, (1 << 62) - 1] {
+                if !how.starts_with("reset") && code != 0 {
+                    continue;
+                }
+                emit("read.exact", vec![s(RTS[(code % 2) as usize]), s(role), s(how), s(code)]);
+            }
         }
     }
     for action in ["reset", "stop", "finish"] {
